@@ -72,7 +72,23 @@ Definition acked (lg : list N) (a : nat) (c : N) : bool :=
 Definition log_step (cmds : list logop) (lg : list N) (e : oevent) : list N :=
   match e with OCommit c => if accepts (cmd_of cmds c) then lg ++ [c] else lg | _ => lg end.
 
-Definition model_step (cmds : list logop) (lg : list N) (cl : cluster) (e : oevent) : cluster * bool :=
+(* acknowledgement memory: per member, 1 + the highest log position acknowledged with this member as committer (a command is
+   looked up at its FIRST position in the committed sequence: the weakest reading; absent = 0). Both passes carry it. *)
+Definition nget (n : N) (m : list (N * nat)) : nat := match aget n m with Some x => x | None => O end.
+Fixpoint first_pos (c : N) (lg : list N) : option nat :=
+  match lg with
+  | [] => None
+  | x :: r => if x =? c then Some O else match first_pos c r with Some j => Some (S j) | None => None end
+  end.
+Definition ack_step (lg : list N) (ak : list (N * nat)) (e : oevent) : list (N * nat) :=
+  match e with
+  | OAck c n => match first_pos c lg with Some j => aput n (Nat.max (S j) (nget n ak)) ak | None => ak end
+  | _ => ak
+  end.
+(* the label of the snapshot OfflineState reads (the last one written; 0 when there is none) *)
+Definition lastlbl (labels : list nat) : nat := match rev labels with [] => O | l :: _ => l end.
+
+Definition model_step (cmds : list logop) (lg : list N) (ak : list (N * nat)) (cl : cluster) (e : oevent) : cluster * bool :=
   match e with
   | OCommit c => (step cl (MCommit (cmd_of cmds c)), accepts (cmd_of cmds c))   (* LogPin lets no unserialisable pin into the log *)
   | OApply n j =>
@@ -118,14 +134,19 @@ Definition model_step (cmds : list logop) (lg : list N) (cl : cluster) (e : oeve
            | None, None => true
            | _, _ => false
            end)
-  | OStopped _ => (cl, true)       (* the model has no lock: a member may stop at any point of a schedule; pass 3 (stop_run) judges *)
+  | OStopped n =>
+      (* Consensus.Shutdown holds shutdownLock (write) from before its final snapshot until Raft has stopped; commit() holds the
+         read side around CommitOp: nothing is acknowledged at the member between its final snapshot and its stop. The model has
+         the lock: the stop is enabled only when everything acknowledged with committer n lies below the label of the snapshot n
+         leaves on disk *)
+      (cl, Nat.leb (nget n ak) (lastlbl (map fst (snaps (getn (nn n) cl)))))
   end.
-Fixpoint model_run (cmds : list logop) (lg : list N) (cl : cluster) (es : list oevent) : bool :=
+Fixpoint model_run (cmds : list logop) (lg : list N) (ak : list (N * nat)) (cl : cluster) (es : list oevent) : bool :=
   match es with
   | [] => true
-  | e :: r => let '(cl', ok) := model_step cmds lg cl e in ok && model_run cmds (log_step cmds lg e) cl' r
+  | e :: r => let '(cl', ok) := model_step cmds lg ak cl e in ok && model_run cmds (log_step cmds lg e) (ack_step lg ak e) cl' r
   end.
-Definition model_eqb (k : N) (cmds : list logop) (es : list oevent) : bool := model_run cmds [] (init (nn k)) es.
+Definition model_eqb (k : N) (cmds : list logop) (es : list oevent) : bool := model_run cmds [] [] (init (nn k)) es.
 
 (* ---- pass 2: the property on the observations alone ---- *)
 (* what the observations say about each node: next position, positions applied so far, labels of its snapshots *)
@@ -145,7 +166,7 @@ Definition expected_calls (ops : list logop) (hist : list nat) : list tcall :=
 Definition proj_call (c : tcall) : tcall :=
   match c with TCall t ci ty d m a => TCall t ci ty d (if ty =? 2 then m else 0) a end.
 
-Definition spec_step (cmds : list logop) (lg : list N) (sn : list snode) (e : oevent) : list N * list snode * bool :=
+Definition spec_step (cmds : list logop) (lg : list N) (ak : list (N * nat)) (sn : list snode) (e : oevent) : list N * list snode * bool :=
   let ops := map (cmd_of cmds) lg in
   match e with
   | OCommit c => (lg ++ [c], sn, true)
@@ -184,12 +205,13 @@ Definition spec_step (cmds : list logop) (lg : list N) (sn : list snode) (e : oe
                | Some l => let a := Nat.max (s_applied (sgetn (nn n) sn)) (nn m0) in
                            existsb (fun m => pins_eqb (map snd (replay (firstn m ops))) l) (seq a (S (length lg - a)))
                | None => false end)
-  | OStopped _ => (lg, sn, true)
+  | OStopped n =>                                                                       (* a clean stop has lost nothing acknowledged at the member *)
+      (lg, sn, Nat.leb (nget n ak) (lastlbl (s_labels (sgetn (nn n) sn))))
   end.
-Fixpoint spec_run (cmds : list logop) (lg : list N) (sn : list snode) (es : list oevent) : bool :=
+Fixpoint spec_run (cmds : list logop) (lg : list N) (ak : list (N * nat)) (sn : list snode) (es : list oevent) : bool :=
   match es with
   | [] => true
-  | e :: r => let '(lg', sn', ok) := spec_step cmds lg sn e in ok && spec_run cmds lg' sn' r
+  | e :: r => let '(lg', sn', ok) := spec_step cmds lg ak sn e in ok && spec_run cmds lg' (ack_step lg ak e) sn' r
   end.
 
 (* the property speaks of pin/unpin operations on well-formed pins: other entries put the case outside its premise *)
@@ -200,44 +222,11 @@ Definition in_premise (op : logop) : bool :=
   | LUnpin p => true
   | _ => false
   end.
-(* ---- pass 3: a member that shut down cleanly has lost nothing that was acknowledged at it ----
-   "An operation acknowledged as committed ... survives a restart": what a stopped member leaves on disk for OfflineState
-   (state export, upgrades) is its newest snapshot. Consensus.Shutdown takes the final snapshot and stops Raft under the
-   write side of shutdownLock; commit() holds the read side around CommitOp ("do not shut down while committing"): no
-   operation is acknowledged at the member between its final snapshot and its stop. On the observations: when Shutdown has
-   returned on n (OStopped n), every command acknowledged with committer n lies below the label of some snapshot n has persisted.
-   Bookkeeping per member (association lists, absent = 0): entries given, label of the requested snapshot, highest label
-   persisted, 1 + the highest log position acknowledged at it (a command is looked up at its FIRST position: the weakest reading). *)
-Definition nget (n : N) (m : list (N * nat)) : nat := match aget n m with Some x => x | None => O end.
-Fixpoint first_pos (c : N) (lg : list N) : option nat :=
-  match lg with
-  | [] => None
-  | x :: r => if x =? c then Some O else match first_pos c r with Some j => Some (S j) | None => None end
-  end.
-Record stopst := mkstopst { t_lg : list N; t_given : list (N * nat); t_pend : list (N * nat); t_lbl : list (N * nat); t_ack : list (N * nat) }.
-Definition stopst0 : stopst := mkstopst [] [] [] [] [].
-Definition stop_step (s : stopst) (e : oevent) : stopst * bool :=
-  match e with
-  | OCommit c => (mkstopst (t_lg s ++ [c]) (t_given s) (t_pend s) (t_lbl s) (t_ack s), true)
-  | OApply n j => (mkstopst (t_lg s) (aput n (S (nn j)) (t_given s)) (t_pend s) (t_lbl s) (t_ack s), true)
-  | ORestore n _ _ lbl => (mkstopst (t_lg s) (aput n (nn lbl) (t_given s)) (t_pend s) (t_lbl s) (t_ack s), true)
-  | ORestart n => (mkstopst (t_lg s) (aput n O (t_given s)) (adel n (t_pend s)) (t_lbl s) (t_ack s), true)
-  | ORecovered n _ _ => (mkstopst (t_lg s) (aput n O (t_given s)) (adel n (t_pend s)) (t_lbl s) (t_ack s), true)
-  | OSnapReq n true => (mkstopst (t_lg s) (t_given s) (aput n (nget n (t_given s)) (t_pend s)) (t_lbl s) (t_ack s), true)
-  | OPersist n =>
-      (mkstopst (t_lg s) (t_given s) (adel n (t_pend s))
-                (match aget n (t_pend s) with Some l => aput n (Nat.max l (nget n (t_lbl s))) (t_lbl s) | None => t_lbl s end) (t_ack s), true)
-  | OAck c n =>
-      (mkstopst (t_lg s) (t_given s) (t_pend s) (t_lbl s)
-                (match first_pos c (t_lg s) with Some j => aput n (Nat.max (S j) (nget n (t_ack s))) (t_ack s) | None => t_ack s end), true)
-  | OStopped n => (s, Nat.leb (nget n (t_ack s)) (nget n (t_lbl s)))
-  | _ => (s, true)
-  end.
-Fixpoint stop_run (s : stopst) (es : list oevent) : bool :=
-  match es with [] => true | e :: r => let '(s', ok) := stop_step s e in ok && stop_run s' r end.
-
+(* "An operation acknowledged as committed ... survives a restart": what a stopped member leaves on disk for OfflineState (state
+   export, upgrades) is its newest snapshot. When Shutdown has returned on n (OStopped n), every command acknowledged with committer
+   n lies below the label of that snapshot (the OStopped clause of spec_step, with the acknowledgement memory `ak`). *)
 Definition spec_okb (k : N) (cmds : list logop) (es : list oevent) : bool :=
-  if forallb in_premise cmds then spec_run cmds [] (repeat snode0 (nn k)) es && stop_run stopst0 es else true.
+  if forallb in_premise cmds then spec_run cmds [] [] (repeat snode0 (nn k)) es else true.
 
 (* ---- known-finding recognisers: the SHAPE of the input, never the verdict ---- *)
 (* S19: some submitted pin carries origins (undecodable from msgpack) *)
